@@ -329,3 +329,6 @@ Definition failed_C16_mux (b : builder) (ops : list op) (cls : list rclass) (fil
                       | Some (ew, eh) => (ew =? w) && (eh =? hh) | None => true end)
         end
     end.
+
+(* payload of a box given as bytes (drop size and type) *)
+Definition payload_of (box : bytes) : bytes := skipn 8 box.
